@@ -42,8 +42,8 @@ def run(ctx):
                 "write paths, Recalculate, restart and the five query classes (4 rows x 3 abstract columns of weight 1,2,4); "
                 "C12_evict_d3 = every history of 3 steps over roaring import set/clear of {1},{2,3},{1,2,3} into 2 rows "
                 "and Recalculate, cache size 1 (d4: 4 steps, column sets {1},{1,2,3}); C12_mutex_d2 = every pair of steps over "
-                "single-row imports and 'Recalculate; TopN' on a mutex field of 3 rows x 2 columns from 3 stored shapes, cache "
-                "size 2; all for ranked and LRU (TLC BFS). Behaviours of one configuration are replayed 8 per "
+                "single-row imports and 'Recalculate; TopN' on a mutex field of 3 rows x 2 columns from 3 stored shapes, LRU cache of "
+                "size 2, each replayed 8 times (map iteration order); evict runs for ranked and LRU (TLC BFS). Behaviours of one configuration are replayed 8 per "
                 "field (emptied in between) under a seeded refinement (row ids, column blocks in 1 or 2 shards, import order, "
                 "roaring encoding), asking only the behaviour's queries (sparse) or also TopN(ids = all rows) after every "
                 "write (full); one evaluation = one behaviour under one variant, every answer compared.")
@@ -71,6 +71,8 @@ def run(ctx):
         r = gen[cfg]
         ctx.notes.append("%s: %d behaviours" % (cfg, r.n_behaviours))
         env = {"VERIF_BOTH_VARIANTS": both}
+        if cfg == "C12_mutex_d2":
+            env["VERIF_REPEAT"] = 8    # the outcome depends on Go's map iteration order
         ctx.drive("bind/topnb", "TestC12", beh=r.behaviours, env=env, label="C12/" + cfg, timeout=3000)
         if first:
             # binding self-test: the last compared answer of one behaviour per field is
